@@ -29,7 +29,8 @@ TRUSTED = ["SortFootnotes.apply, UnreferencedFootnotesDetector.apply, CollectFoo
            "gen/c11_transforms.py (priorities and get_transforms lists -> coq/Gen/Transforms.v)",
            "docutils Transformer applies transforms sorted by (priority, insertion order)",
            "the Markdown parser (markdown-it footnote plugin) turns [^l] / [^l]: into footnote_ref / footnote_reference tokens in document order"]
-ORACLES = {"O_footnotes_xform": "docutils.transforms.references.Footnotes (number_footnotes, number_footnote_references, resolve_footnotes_and_citations) and document.note_*: transcribed in Foot.v (docutils_footnotes); validated on its own by corr_docutils_only (the real transform applied to hand-built docutils documents: extra registered names x orders of auto-numbered footnotes x manual footnotes x reference sequences, exhaustively for small sizes) and exercised by every pipeline case",
+ORACLES = {"O_footnotes_xform": "(round 4: the transform is also TRANSLATED from the installed docutils source on every run, Gen/DocutilsFootSrc.v; number_footnotes proved equal to the transcription - C11_docutils_number_src_partial -, the whole translated apply run extracted beside the transcription on every enumerated registry) docutils.transforms.references.Footnotes (number_footnotes, number_footnote_references, resolve_footnotes_and_citations) and document.note_*: transcribed in Foot.v (docutils_footnotes); validated on its own by corr_docutils_only (the real transform applied to hand-built docutils documents: extra registered names x orders of auto-numbered footnotes x manual footnotes x reference sequences, exhaustively for small sizes) and exercised by every pipeline case",
+           "O_footnotes_xform_fx": "the same assumption under the name it has in coq/Refs/FootSrcProofs.v (Section SrcTheorems): fx s = docutils_footnotes s; exercised by corr_docutils_only and every pipeline case",
            "O_isdigit_int": "Python str.isdigit / int(): passed to the model as a table computed by Python for the labels of the case",
            "O_show": "str(int) = Base.PyStr.show (decimal); used for the numbers docutils assigns"}
 ASSUMPTIONS = ["dict iteration order = insertion order (CPython >= 3.7)",
@@ -61,6 +62,11 @@ def gen(ctx):
     text = c11_src.generate(common.REPO)
     common.write_if_changed(common.COQ / "Gen" / "FootSrc.v", text)
     ctx.gen_info["Gen/FootSrc.v"] = hashlib.sha256(text.encode()).hexdigest()[:16]
+    # Gen/DocutilsFootSrc.v: docutils' Footnotes transform translated from the INSTALLED docutils source
+    from gen import c11_docutils
+    text = c11_docutils.generate()
+    common.write_if_changed(common.COQ / "Gen" / "DocutilsFootSrc.v", text)
+    ctx.gen_info["Gen/DocutilsFootSrc.v"] = hashlib.sha256(text.encode()).hexdigest()[:16]
     ctx.gen_info["sources"] = src_hashes(["myst_parser/mdit_to_docutils/transforms.py", "myst_parser/mdit_to_docutils/base.py",
                                           "myst_parser/parsers/docutils_.py", "myst_parser/parsers/sphinx_.py"])
 
@@ -384,6 +390,7 @@ FIXED = [
     [["R", ["a", "2"]], ["D", "2", []], ["D", "a", []], ["D", "b", []], ["R", ["b"]]],
     [["R", ["²", "1"]], ["D", "²", []], ["D", "1", []]],
     [["R", ["٣", "a"]], ["D", "a", []], ["D", "٣", []]],
+    [["R", ["*", "a", "#"]], ["D", "*", []], ["D", "a", []], ["D", "#", []]],      # not symbol / anonymous footnotes: ordinary names
     # nesting: list > quote > definition, definition-list definition, sections with a reference in the heading
     [["R", ["a"], "table"], ["B", "list", [["B", "quote", [["D", "a", ["b"]], ["R", ["1"]]]], ["D", "b", []]]],
      ["B", "dl", [["R", ["a"], "field"], ["D", "1", []], ["B", "list", [["D", "a", []]]]]],
@@ -454,8 +461,7 @@ def corr(ctx):
                     c2 = {k: v for k, v in c2.items() if k != "text"}
                 ctx.disagree("footnote pipeline: " + d, c2, {k: o.get(k) for k in ("layout", "wlines", "exc")}, {k: m.get(k) for k in ("layout", "wlines", "exc")})
     ctx.sample({"arrangement": cases[40]["arr"], "text": obs[40].get("text"), "sort": cases[40]["sort"], "trans": cases[40]["trans"]})
-    if ctx.tier == "thorough" or ctx.deep:
-        corr_sphinx(ctx)
+    corr_sphinx(ctx)      # quick tier: one small fixed project per sort setting; thorough: four larger ones
 
 
 # ---- docutils' Footnotes transform alone (oracle hypothesis O_footnotes_xform) ----
@@ -562,6 +568,9 @@ def corr_docutils_only(ctx):
     for c, o, reply in zip(cases, obs, outs):
         ctx.corr_cases += 1
         ctx.count("corr:docutils-only")
+        reply, reply_src = reply.split(" ## ")
+        if reply != reply_src and len(ctx.disagreements) < 40:
+            ctx.disagree("docutils Footnotes: transcription (Foot.v) vs the definition translated from the installed source", c, reply_src, reply)
         if reply.startswith("!"):
             m = {"exc": reply[1:]}
         else:
@@ -582,11 +591,12 @@ def corr_sphinx(ctx):
     """The same relation through Sphinx builds: one project per setting, one document per arrangement."""
     from gen.c11_docs import render, random_arrangement, small_arrangements
     from lib.impl import SphinxProject
-    arrs = [a for a in small_arrangements(["a", "b", "1"], 3)][:: 8]
+    big = ctx.tier == "thorough" or ctx.deep
+    arrs = [a for a in small_arrangements(["a", "b", "1"], 3)][:: (8 if big else 40)]
     arrs += [a for a in FIXED if "²" not in repr(a)]
-    arrs += [random_arrangement(ctx.rng, big=(i % 4 == 0)) for i in range(ctx.budget(0, 120, 120))]
+    arrs += [random_arrangement(ctx.rng, big=(i % 4 == 0)) for i in range(ctx.budget(12, 120, 120))]
     for s in (True, False):
-        for t in (True, False):
+        for t in ((True, False) if big else (s,)):
             files = {"index.md": "# Index\n\n```{toctree}\n" + "\n".join(f"d{i}" for i in range(len(arrs))) + "\n```\n"}
             infos = []
             for i, a in enumerate(arrs):
